@@ -376,6 +376,11 @@ def bounded_histories(seed, n_obj, n_hist):
             objs.append(K.transform(o, R, t, k))
             objs.append(o)  # the same object in its integer lattice position: the library then stores ints, and the moves below add halves to them
     objs += list(K.polygons(rng, n_obj)) + list(K.polyhedra(rng, n_obj))
+    # bodies whose vertices do not all lie on the same number of faces (square pyramids, ...): there the mean of the face centres, the mean of the
+    # vertices counted per face and the vertex mean differ, so a centre recomputed the wrong way after a move shows (the first bodies of the catalogue
+    # are tetrahedra and boxes, where all these means coincide)
+    from collections import Counter as _Counter
+    objs += [b_ for b_ in K.polyhedra(K.make_rng(seed + 19), 10) if len(set(_Counter(v_ for f_ in b_[1] for v_ in f_).values())) > 1][:2]
     vecs = [(0, 0, 0), (1, 0, 0), (0, -2, 0), (0, 0, 3)]
     for ex in objs:
         for hnum in range(n_hist):
@@ -423,6 +428,18 @@ def bounded_histories(seed, n_obj, n_hist):
                             fail(klass, "eq_with_normal raised %r" % (e,), case)
                     if not ok_eq:
                         fail(klass, "%s != object freshly constructed at the translated position" % name, case)
+                    if kind in ("Polygon", "Polyhedron") and hasattr(o, "center_point") and hasattr(fresh, "center_point"):
+                        # "translates obj itself": the centre (public attribute, reference point of the half-space tests and apex of the pyramids) moves with the body
+                        try:
+                            cf = [float(fresh.center_point[i_]) for i_ in range(3)]
+                            if not all(close(float(o.center_point[i_]), cf[i_]) for i_ in range(3)):
+                                fail(klass, "%s: center_point %r is not that of the object freshly constructed at the translated position %r" % (name, o.center_point, fresh.center_point), case)
+                            for py in (getattr(o, "pyramid_set", None) or ()):
+                                if not all(close(float(py.point[i_]), cf[i_]) for i_ in range(3)):
+                                    fail(klass, "%s: a pyramid of the moved body has its apex %r away from the centre of the freshly constructed body %r" % (name, py.point, fresh.center_point), case)
+                                    break
+                        except Exception as e:
+                            fail(klass, "%s: reading center_point / pyramids raised %r" % (name, e), case)
                     elif not ok_hash:
                         fail(klass, "%s == fresh object but the hashes differ" % name, case)
                     if kind != "Point":
